@@ -452,6 +452,28 @@ def multi_cases(rng, full):
     return out
 
 
+def conv_cases(rng, full):
+    """conversion sweep on ITEM-LESS operands whose trailing leading axes look like an item (length 2, 3, 4, (3,3)):
+    the place where a conversion can mistake a leading axis for an item axis.  Deterministic shapes, both tiers;
+    scalar masks included on purpose (an array mask of the old leading shape makes most mis-reads raise)."""
+    out = []
+    shapes = [[3], [2], [4], [2, 3], [3, 2], [1, 2], [2, 2], [2, 4], [3, 3], [2, 3, 3], [1, 3]]
+    for cls in ('Scalar', 'Boolean', 'Qube'):
+        for shape in shapes:
+            n = prod(shape)
+            for mask in ('F', 'T', [bool((k * 3 + 1) % 4 == 0) for k in range(n)]):
+                for target in ('Scalar', 'Vector', 'Vector3', 'Pair', 'Matrix'):
+                    for rep in range(2 if full else 1):
+                        o = rand_obj(rng, shape, cls=cls, numer=(), denom=(), nderiv=rng.choice([0, 1]))
+                        o['mask'] = mask
+                        if o.get('layout', {}).get('op') == 'broadcast_to':
+                            o.pop('layout'); o.pop('bview', None)
+                            for d in o['derivs']:
+                                d['view'] = False
+                        out.append(mk('as_class', o, {'target': target, 'rec': rng.random() < 0.7}, 'as_class:itemless:' + target))
+    return out
+
+
 def gen_cases(rng, tier):
     full = tier == 'thorough'
     pool = list(all_shapes(4, [0, 1, 2, 3]))
@@ -468,6 +490,7 @@ def gen_cases(rng, tier):
     for s in ishapes:
         cases += item_cases(rng, s, full)
     cases += multi_cases(rng, full)
+    cases += conv_cases(rng, full)
     return cases
 
 
